@@ -117,6 +117,7 @@ struct Transport::Impl
   {
     std::condition_variable cv;
     bool done{false};
+    bool abandoned{false}; // the caller timed out and issued close(); guarded by syncMutex
     ConnectResult result{ConnectResult::err(TransportErrorInfo{TransportError::Timeout, "pending"})};
   };
   std::mutex syncMutex;
@@ -317,6 +318,13 @@ struct Transport::Impl
           auto it = pendingConnects.find(sid);
           if (it != pendingConnects.end())
           {
+            if (it->second->abandoned)
+            {
+              // connectSync already timed out and issued close(sid). Keep the
+              // entry so the close that follows is suppressed too: the caller
+              // never received this sid, so no global callback may name it.
+              return;
+            }
             op = it->second;
             op->result = ConnectResult::ok(sid);
             op->done = true;
@@ -852,6 +860,7 @@ inline ConnectResult Transport::connectSync(const std::string &host, std::uint16
   // returning so connectGuard's dtor (the activeConnects decrement, a syncMutex-
   // guarded mutation) runs UNDER the lock — it destructs before `lk` because it
   // is declared after it.
+  op->abandoned = true; // under syncMutex: a late onConnect must leave the entry for onClose
   lk.unlock();
   _impl->engine->close(sid);
   lk.lock();
